@@ -143,7 +143,7 @@ func propC14(e *Env) {
 	if ex == nil {
 		return
 	}
-	r := newRtRigStore(e, dir, store)
+	r := newRtRigStore(e, dir, store, swarmRtOpts(e)...)
 	if !r.quiesce() {
 		return
 	}
